@@ -372,6 +372,7 @@ class Sess:
         self.recs = []
         self.exact = exact          # dict(kind, L, sites) for exact-domain traces
         self.tnorm = False          # the history contains Tensor.normalize on a flagged tensor
+        self.dead = False           # the state is no longer finite / no longer an MPS
         self.last = None
 
     # -- helpers
@@ -391,6 +392,7 @@ class Sess:
             ob = {"L": 2, "rec": [-3, -3], "isoL": [False, False], "isoR": [False, False],
                   "flags": [{"claim": False, "iso": False, "kind": "N"}] * 2}
             rec["exc"] = (exc + "|" if exc else "") + "observe:" + type(ex).__name__
+            self.dead = True
         rec.update(ob)
         if extra:
             rec.update(extra)
@@ -420,11 +422,16 @@ class Sess:
         if newpsi is not None:
             self.psi = newpsi
         ex = dict(extra or {})
-        if expect is not None:
-            try:
-                ex["dstate"] = qdiff(self.dense(), expect, self.qtol)
-            except Exception as e:  # noqa
-                ex["dstate"] = 999990
+        try:
+            post = self.dense()
+            if not np.all(np.isfinite(post)):
+                self.dead = True        # nothing can be measured on this state any more: the history ends here
+                ex["dstate"] = 999998
+            elif expect is not None:
+                ex["dstate"] = qdiff(post, expect, self.qtol)
+        except Exception as e:  # noqa
+            self.dead = True
+            ex["dstate"] = 999990
         if q is not None:
             ex["q"] = dict(q, z=0)
         return self.emit(ev, args, ex, obj=obj or ("returned" if newpsi is not None else "receiver"))
